@@ -63,6 +63,7 @@ def run(prog, R, tier="quick", only_rule=None):
     # a blob file named by the current version is never unlinked: marks come only after the version without it is published
     from rules.props import c05
     c05.c05c(prog, R, rid="C08.h")
+    c09.c09j(prog, R, rid="C08.i")
 
 
 def c08a(prog, R):
